@@ -305,6 +305,28 @@ func body(c *kernel.Ctx) {
 	// expiry: after the duty's deadline an original is refused
 	if dl, ok := deadlineOf(cl, duty); ok {
 		verifrt.Sleep(time.Until(dl) + 5*time.Second)
+		// a late local start for the expired duty (slow beacon node: the fetcher or the scheduler's
+		// participate trigger comes after the deadline) is skipped by the component and must not
+		// re-open the duty for peers' messages
+		switch late := verifrt.Intn("w", 3); late {
+		case 1, 2:
+			verifrt.Probe(fmt.Sprintf("late-local-start:%d", late))
+			done := make(chan struct{})
+			verifrt.GoNode(tn.Tag, func() {
+				defer close(done)
+				if late == 1 {
+					_ = tn.Cons.Participate(tn.Ctx, duty)
+					return
+				}
+				set := core.UnsignedDataSet{}
+				for _, v := range cl.Vals {
+					def := cl.DefSet(duty.Slot)[v.CorePK].(core.AttesterDefinition)
+					set[v.CorePK] = core.AttestationData{Data: *cl.AttData(0, eth2p0.Slot(duty.Slot), v.Committee), Duty: def.AttesterDuty}
+				}
+				_ = tn.Cons.Propose(tn.Ctx, duty, set)
+			})
+			verifrt.RecvTimeout(done, nil, 30*time.Second)
+		}
 		for _, cls := range repKeys {
 			m := reps[cls]
 			if core.DutyFromProto(m.GetMsg().GetDuty()) != duty {
